@@ -149,7 +149,7 @@ PROPS = {
                         'promptness ("returns promptly") is measured by the correspondence run (5 s budget per predicted return), not proved'],
     },
     'C11': {
-        'engines': [('bc', 400, 4000)],
+        'engines': [('bc', 400, 4000), ('rhandle', 1, 1)],
         'rule': 'scripts over the base client LTS: API calls (Connect, Publish QoS 1/2, Subscribe, Unsubscribe, Ping, Disconnect) started at scripted points, acknowledgements in a scripted order (own, foreign, wrong-kind, unsolicited, SUBACK with right / wrong count), cancellation of any call, peer close, local Close, malformed packet, write refusal; the thorough tier enumerates every request kind x every step of its exchange x every cause, alone and with 1-4 other blocked calls; non-trivial = at least one call was made',
         'assumptions': ['registration of a waiter and the write of its request are one atomic step (no acknowledgement can precede the request)',
                         'goroutine scheduling and channel semantics of Go are not formalised: each blocking select is modelled by its three exits',
